@@ -2,7 +2,11 @@ module verifharness
 
 go 1.23
 
-require github.com/grafana/cog v0.0.0
+require (
+	github.com/grafana/codejen v0.0.4-0.20230321061741-77f656893a3d
+	github.com/grafana/cog v0.0.0
+	golang.org/x/tools v0.30.0
+)
 
 require (
 	cuelabs.dev/go/oci/ociregistry v0.0.0-20240906074133-82eb438dd565 // indirect
@@ -15,7 +19,6 @@ require (
 	github.com/go-openapi/swag v0.23.0 // indirect
 	github.com/google/go-cmp v0.7.0 // indirect
 	github.com/google/uuid v1.6.0 // indirect
-	github.com/grafana/codejen v0.0.4-0.20230321061741-77f656893a3d // indirect
 	github.com/hashicorp/errwrap v1.1.0 // indirect
 	github.com/hashicorp/go-multierror v1.1.1 // indirect
 	github.com/huandu/xstrings v1.5.0 // indirect
@@ -37,7 +40,6 @@ require (
 	golang.org/x/oauth2 v0.24.0 // indirect
 	golang.org/x/sync v0.11.0 // indirect
 	golang.org/x/text v0.22.0 // indirect
-	golang.org/x/tools v0.30.0 // indirect
 	gopkg.in/yaml.v3 v3.0.1 // indirect
 )
 
